@@ -76,7 +76,7 @@ End WithPayloader.
       change (profile_one_byte =? profile_one_byte) with true. cbn [fold_left epayload]. rewrite Hb.
       change ((4 + 1 + 3 + 3) / 4 * 4) with 8. lia.
     - replace (14 <? id) with true by lia.
-      change (profile_two_byte =? profile_one_byte) with false. change (profile_two_byte =? profile_two_byte) with true.
+      change (profile_two_byte =? profile_one_byte) with false. change (ext_form profile_two_byte =? profile_two_byte) with true.
       cbn [fold_left epayload]. rewrite Hb. change ((4 + 2 + 3 + 3) / 4 * 4) with 12. lia.
   Qed.
 
@@ -306,9 +306,9 @@ Proof.
     destruct (id <=? 14) eqn:E14.
     + change (profile_one_byte =? profile_one_byte) with true. cbn [fold_left epayload]. rewrite Hb. split; [|cbn; lia].
       left. split; [reflexivity|]. constructor; [|constructor]. unfold wf_ext1. cbn [eid epayload]. rewrite Hb. lia.
-    + change (profile_two_byte =? profile_one_byte) with false. change (profile_two_byte =? profile_two_byte) with true.
+    + change (profile_two_byte =? profile_one_byte) with false. change (ext_form profile_two_byte =? profile_two_byte) with true.
       cbn [fold_left epayload]. rewrite Hb. split; [|cbn; lia].
-      right. left. split; [reflexivity|]. constructor; [|constructor]. unfold wf_ext2. cbn [eid epayload]. rewrite Hb. lia.
+      right. left. split; [unfold profile_two_byte; lia|]. split; [reflexivity|]. constructor; [|constructor]. unfold wf_ext2. cbn [eid epayload]. rewrite Hb. lia.
   - cbn [hdr padding padding_size]. exact Hp.
 Qed.
 
